@@ -5,7 +5,7 @@ from ..gen import Opt, schema_lines, LIST, MULTI, TITLE, KEYSTRVAL, NOCASE
 from .C01 import hand_schemas
 
 THEOREMS = ["lex_line_count", "dqRun_line", "sqRun_line", "commentRun_line", "lineComment_line", "pstep_line",
-            "pstep_err_reported", "pstep_eof_reported", "pstep_nat", "C06_layout_independent"]
+            "pstep_err_reported", "pstep_eof_reported", "pstep_nat", "C06_layout_independent", "C14_log_monotone"]
 PARTIAL = ("Proved: the scanner counts every newline exactly once on every path (lex_line_count, for inputs without '$': the body of a ${...} "
            "substitution is the unspecified zone); every step of the token machine that keeps running leaves the current context on line + (scanner's "
            "count), through section entry and exit (pstep_line); scanner errors and premature end of input fail the parse with a diagnostic naming the "
